@@ -440,19 +440,19 @@ fn owned_extras(rep: &mut Report) {
 
 pub fn run(tier: &str, rep: &mut Report) {
     std::panic::set_hook(Box::new(|_| {}));
-    let depth = if tier == "thorough" { 7 } else { 5 };
-    rep.bounds.insert("histories".into(), format!("all sequences of {{next, bump(1) when legal, clone, morph, spanned}} up to depth {depth}, de-duplicated on (definition, token_start, token_end, extras), for 3 definition pairs (str, bytes, str with look-ahead / end-anchored patterns) x {{ordinary, partial}} x both start definitions x 7 sources each"));
-    let str_sources: [&str; 8] = ["", "ab 12", "éa€b", "abc  ", "ab..", "a!b", "ab. x9", "BEG 1 BEGI"];
+    let depth = if tier == "thorough" { 12 } else { 8 };
+    rep.bounds.insert("histories".into(), format!("all sequences of {{next, bump(1) when legal, clone, morph, spanned}} up to depth {depth}, de-duplicated on (definition, token_start, token_end, extras), for 3 definition pairs (str, bytes, str with look-ahead / end-anchored patterns) x {{ordinary, partial}} x both start definitions x 10-12 sources each (empty, ASCII, multi-byte, ending in a skip, ending mid-token, unmatched bytes, a leading byte order mark, 4-byte characters, a longer text)"));
+    let str_sources: [&str; 12] = ["", "ab 12", "éa€b", "abc  ", "ab..", "a!b", "ab. x9", "BEG 1 BEGI", "\u{feff}ab 1", "a😊b 😊", "ab 12 cd 345 é€ ef.. 6", "\u{feff}"];
     for s in str_sources {
         strs::explore(s.as_bytes(), depth, rep);
         rep.count("programs", 1);
     }
-    let look_sources: [&str; 7] = ["", "let end", "let x\nend", "ab\nend", "letx #a", "#ab\nlet", "end end\n"];
+    let look_sources: [&str; 10] = ["", "let end", "let x\nend", "ab\nend", "letx #a", "#ab\nlet", "end end\n", "\u{feff}let end", "let let\nend\n#x let", "é let"];
     for s in look_sources {
         looks::explore(s.as_bytes(), depth, rep);
         rep.count("programs", 1);
     }
-    let bin_sources: [&[u8]; 7] = [b"", b"ab 12", b"\xc3\xa9a\xff", b"abc  ", b"a\x80\x80b", b"a!b", b"zz 7\xfe"];
+    let bin_sources: [&[u8]; 10] = [b"", b"ab 12", b"\xc3\xa9a\xff", b"abc  ", b"a\x80\x80b", b"a!b", b"zz 7\xfe", b"\xef\xbb\xbfab 1", b"\xff\xfe\x00a", b"ab 12 cd 345 \xff\xff ef 6"];
     for s in bin_sources {
         bins::explore(s, depth, rep);
         rep.count("programs", 1);
